@@ -825,7 +825,11 @@ var deepDepths = []int{16, 17, 32, 33, 64, 65}
 // further members / elements after the deep value, and the same one level
 // further in.
 func H15_Deep() {
-	D := deepDepths[vrt.Choice("depth", len(deepDepths))]
+	depths := deepDepths
+	if vrt.Thorough() {
+		depths = []int{8, 9, 15, 16, 17, 18, 31, 32, 33, 34, 63, 64, 65, 66, 127, 128, 129}
+	}
+	D := depths[vrt.Choice("depth", len(depths))]
 	pattern := vrt.Choice("pattern", 3)
 	outer := vrt.Choice("outer", 2) // outermost container: 0 object, 1 array
 	name := "n\""
